@@ -15,11 +15,17 @@
      seq <url>*                            -> responses of ONE server answering the urls in order
      conc <i,j,k,...> <url>*               -> responses of one server whose handlers are interleaved
                                               by the schedule (then finished round-robin)
+     cd <url>                              -> cd <n> (<name> <method> <flags> <crc32> <size>)*n | nozip <status>
+                                              the central directory of the zip a fresh server serves
      stored <path> <vers>                  -> none | some <n> (<fname> <fdata>)*
      listed <path>                         -> <vers>*
      escape <s> / unescape <s>             -> ok <hex> | err
    response ::= 404 | 200 <body> | zip <n> (<name> <data>)*n | 500 | NOSERVER
-   A missing oracle entry answers  NEED <kind> <key> [<key2>]  (the runner supplies it and asks again). *)
+   A missing oracle entry answers  NEED <kind> <key> [<key2>]  (the runner supplies it and asks again).
+     mode xmod|tables                      computed x/mod decisions (default) or oracle tables
+     xlog                                  -> log ; <kind> <key> [<key2>] 0|1 ; ...   the decisions taken
+                                              in computed mode since the last xlog
+     x cp|ce|sv|re|canon <s>, x mc|cmp <a> <b>, x split <p>    the Gallina x/mod functions directly *)
 
 exception Need of string
 
@@ -51,9 +57,44 @@ let asks kind (k : byte list) : byte list =
   let key = kind ^ " " ^ hex_of_bytes k in
   match Hashtbl.find_opt tbls key with Some b -> b | None -> raise (Need key)
 
-let orc : oracles = {
+(* CRC-32 (IEEE) of entry data: an oracle function, table "crc <data> <decimal>" *)
+let tblcrc : (string, int) Hashtbl.t = Hashtbl.create 1024
+let crc_of (data : byte list) : n =
+  let key = "crc " ^ hex_of_bytes data in
+  match Hashtbl.find_opt tblcrc key with Some c -> n_of_int c | None -> raise (Need key)
+
+let tab_orc : oracles = {
   check_path = ask1 "cp"; check_elem = ask1 "ce"; module_check = ask2 "mc";
   semver_valid = ask1 "sv"; pseudo_re = ask1 "re"; semver_lt = ask2 "lt"; info_short = asks "is" }
+
+(* computed mode (default): the x/mod functions of Proxy/XMod.v and the generated regular
+   expression decide; only the Short field of .info stays a table.  Every decision is logged
+   (once per distinct argument) so that the runner can compare it with the real x/mod. *)
+let xlog_seen : (string, unit) Hashtbl.t = Hashtbl.create 4096
+let xlog_new : string list ref = ref []
+let logb key (r : bool) = 
+  if not (Hashtbl.mem xlog_seen key) then begin
+    Hashtbl.add xlog_seen key (); xlog_new := (key ^ " " ^ (if r then "1" else "0")) :: !xlog_new end; r
+let xm : oracles = xmod_oracles (asks "is")
+let xmod_orc : oracles = {
+  check_path = (fun p -> logb ("cp " ^ hex_of_bytes p) (xm.check_path p));
+  check_elem = (fun v -> logb ("ce " ^ hex_of_bytes v) (xm.check_elem v));
+  module_check = (fun p v -> logb ("mc " ^ hex_of_bytes p ^ " " ^ hex_of_bytes v) (xm.module_check p v));
+  semver_valid = (fun v -> logb ("sv " ^ hex_of_bytes v) (xm.semver_valid v));
+  pseudo_re = (fun v -> logb ("re " ^ hex_of_bytes v) (xm.pseudo_re v));
+  semver_lt = (fun a b -> logb ("lt " ^ hex_of_bytes a ^ " " ^ hex_of_bytes b) (xm.semver_lt a b));
+  info_short = asks "is" }
+
+let use_tables = ref false
+(* the record the model runs with: dispatches on the current mode at every call *)
+let orc : oracles = {
+  check_path = (fun p -> (if !use_tables then tab_orc else xmod_orc).check_path p);
+  check_elem = (fun v -> (if !use_tables then tab_orc else xmod_orc).check_elem v);
+  module_check = (fun p v -> (if !use_tables then tab_orc else xmod_orc).module_check p v);
+  semver_valid = (fun v -> (if !use_tables then tab_orc else xmod_orc).semver_valid v);
+  pseudo_re = (fun v -> (if !use_tables then tab_orc else xmod_orc).pseudo_re v);
+  semver_lt = (fun a b -> (if !use_tables then tab_orc else xmod_orc).semver_lt a b);
+  info_short = asks "is" }
 
 let cur_dir : dir ref = ref []
 
@@ -125,7 +166,20 @@ let handle = function
       Hashtbl.replace tbl1 (k ^ " " ^ key) (v = "1"); "ok"
   | ["oracle"; ("mc" | "lt" as k); k1; k2; v] ->
       Hashtbl.replace tbl2 (k ^ " " ^ k1 ^ " " ^ k2) (v = "1"); "ok"
+  | ["oracle"; "crc"; key; v] -> Hashtbl.replace tblcrc ("crc " ^ key) (int_of_string v); "ok"
   | ["oracle"; "is"; key; v] -> Hashtbl.replace tbls ("is " ^ key) (bytes_of_hex v); "ok"
+  | ["mode"; "tables"] -> use_tables := true; cur_ml := None; "ok"
+  | ["mode"; "xmod"] -> use_tables := false; cur_ml := None; "ok"
+  | ["xlog"] -> let l = List.rev !xlog_new in xlog_new := []; String.concat " ; " ("log" :: l)
+  | ["x"; "cp"; s] -> string_of_bool (check_path_x (bytes_of_hex s))
+  | ["x"; "ce"; s] -> string_of_bool (check_elem_x (bytes_of_hex s))
+  | ["x"; "sv"; s] -> string_of_bool (semver_is_valid (bytes_of_hex s))
+  | ["x"; "re"; s] -> string_of_bool (re_match pseudo_version_re (bytes_of_hex s))
+  | ["x"; "canon"; s] -> hex_of_bytes (semver_canonical (bytes_of_hex s))
+  | ["x"; "mc"; a; b] -> string_of_bool (module_check_x (bytes_of_hex a) (bytes_of_hex b))
+  | ["x"; "cmp"; a; b] -> (match semver_compare (bytes_of_hex a) (bytes_of_hex b) with Lt -> "-1" | Eq -> "0" | Gt -> "1")
+  | ["x"; "split"; s] -> let ((pre, pm), ok) = split_path_version (bytes_of_hex s) in
+      String.concat " " [hex_of_bytes pre; hex_of_bytes pm; string_of_bool ok]
   | ["resrc"] -> hex_of_bytes pseudo_version_re_src
   | ["consts"] ->
       String.concat " " (List.map hex_of_bytes
@@ -141,6 +195,14 @@ let handle = function
        | RNotFound -> "nf"
        | RList p -> "list " ^ hex_of_bytes p
        | RFile (p, v, e) -> String.concat " " ["file"; hex_of_bytes p; hex_of_bytes v; hex_of_bytes e])
+  | ["cd"; u] -> with_server (fun ml ->
+      match respond orc !cur_dir ml (bytes_of_hex u) with
+      | OkZip es ->
+          let cd = central_directory crc_of es in
+          String.concat " " ("cd" :: string_of_int (List.length cd) ::
+            List.concat_map (fun e -> [hex_of_bytes e.cd_name; string_of_int (int_of_n e.cd_method);
+              string_of_int (int_of_n e.cd_flags); string_of_int (int_of_n e.cd_crc); string_of_int (int_of_n e.cd_size)]) cd)
+      | r -> "nozip " ^ (match r with NotFound -> "404" | Err500 -> "500" | _ -> "200"))
   | ["req"; u] -> with_server (fun ml -> show_resp (respond orc !cur_dir ml (bytes_of_hex u)))
   | "seq" :: us ->
       with_server (fun ml ->
